@@ -45,4 +45,77 @@ def progress_statement : Prop :=
   ∀ (w : World) (s : LState) (τ : Nat) (t : Thread), s.threads[τ]? = some t →
     ∃ ok id, ((run w s [τ, τ, τ, τ]).threads[τ]?.map (·.pc)) = some (.done ok id)
 
+/-! ## proofs -/
+
+theorem map_monotone : map_monotone_statement := by
+  intro w s τ n id h
+  exact step_map_mono w s τ n id h
+
+/-- what the invariant says about a finished thread -/
+theorem done_spec (w : World) (names : List Name) (sched : List Nat) (i : Nat) (t : Thread)
+    (ok : Bool) (id : Ident) (h : (reach w names sched).threads[i]? = some t)
+    (hp : t.pc = .done ok id) :
+    (isUtcName t.name = true ∧ ok = true ∧ id = .utc) ∨
+    (isUtcName t.name = false ∧ List.lookup t.name (reach w names sched).map = some id ∧
+      ok = (id != .utc)) := by
+  have I := inv_reach w names sched
+  have := I.thr i t h
+  rw [hp] at this
+  exact this
+
+theorem same_name_same_identity : same_name_same_identity_statement := by
+  intro w names sched i j ti tj ok1 ok2 id1 id2 hi hj hn hp1 hp2
+  rcases done_spec w names sched i ti ok1 id1 hi hp1 with ⟨u1, a1, b1⟩ | ⟨u1, a1, b1⟩
+  · rcases done_spec w names sched j tj ok2 id2 hj hp2 with ⟨u2, a2, b2⟩ | ⟨u2, a2, b2⟩
+    · exact ⟨by rw [b1, b2], by rw [a1, a2]⟩
+    · rw [hn, u2] at u1; cases u1
+  · rcases done_spec w names sched j tj ok2 id2 hj hp2 with ⟨u2, a2, b2⟩ | ⟨u2, a2, b2⟩
+    · rw [hn, u2] at u1; cases u1
+    · rw [hn, a2] at a1
+      have e : id2 = id1 := Option.some.inj a1
+      subst e
+      exact ⟨rfl, by rw [b1, b2]⟩
+
+theorem result_is_sequential : result_is_sequential_statement := by
+  intro w names sched i t ok id h hp
+  have I := inv_reach w names sched
+  rcases done_spec w names sched i t ok id h hp with ⟨u, a, b⟩ | ⟨u, a, b⟩
+  · subst a; subst b
+    simp [seqOk, u]
+  · obtain ⟨_, m⟩ := I.mapUtc t.name id a
+    subst b
+    cases id with
+    | utc =>
+      have := m.mp rfl
+      simp [this, u]
+    | impl g =>
+      have : seqOk w t.name = true := by
+        cases e : seqOk w t.name with
+        | true => rfl
+        | false => exact absurd (m.mpr e) (by simp)
+      simp [this, u]
+
+theorem distinct_names_distinct_zones : distinct_names_distinct_zones_statement := by
+  intro w names sched i j ti tj ok1 ok2 g1 g2 hi hj hn hp1 hp2 e
+  have I := inv_reach w names sched
+  subst e
+  rcases done_spec w names sched i ti ok1 _ hi hp1 with ⟨_, _, b1⟩ | ⟨_, a1, _⟩
+  · cases b1
+  · rcases done_spec w names sched j tj ok2 _ hj hp2 with ⟨_, _, b2⟩ | ⟨_, a2, _⟩
+    · cases b2
+    · exact hn (I.mapInj _ _ _ a1 a2)
+
+theorem progress : progress_statement := by
+  intro w s τ t h
+  obtain ⟨t', ok, id, h', _, hp⟩ := block_done w h
+  exact ⟨ok, id, by rw [h']; simp [hp]⟩
+
+/-- the hypotheses of the statements above are satisfiable: two threads racing on the same
+(unloadable) name both finish with UTC / failure -/
+example : ∃ ti tj, (reach { data := fun _ => none } [[120], [120]] [0, 1, 0, 1, 0, 1, 0, 1]).threads[0]? = some ti ∧
+    (reach { data := fun _ => none } [[120], [120]] [0, 1, 0, 1, 0, 1, 0, 1]).threads[1]? = some tj ∧
+    ti.name = tj.name ∧ ti.pc = .done false .utc ∧ tj.pc = .done false .utc := by
+  refine ⟨⟨[120], .done false .utc⟩, ⟨[120], .done false .utc⟩, ?_⟩
+  decide +kernel
+
 end Cctz.C13
